@@ -357,6 +357,49 @@ EXCEPTIONS = {
 }
 
 
+def _only_err_returns_from(fn, bb):
+    """Every path from block bb to a return passes a block that builds `_0 = Err(..)`."""
+    errb = {b for b in fn.reach_from([bb]) for s in fn.blocks[b]['stmts']
+            if s['k'] == 'assign' and s['lhs']['l'] == 0 and not s['lhs']['p'] and s['rv']['r'] == 'agg'
+            and s['rv'].get('variant_name') == 'Err'}
+    if not errb or bb in errb:
+        return bool(errb)
+    noerr = fn.reach_from([bb], stop=errb)
+    return not any(fn.blocks[b]['term']['k'] == 'return' for b in noerr)
+
+
+def _is_drop_elaboration(fn, starts):
+    """The Err edge of a compiler-generated re-test of a Result's discriminant on a scope exit: everything up to
+    the return is drop glue (drops, drop-flag updates, discriminant reads), no user statement."""
+    seen = set()
+    stack = list(starts)
+    while stack:
+        b = stack.pop()
+        if b in seen:
+            continue
+        seen.add(b)
+        if len(seen) > 40:
+            return False
+        blk = fn.blocks[b]
+        for s in blk['stmts']:
+            if s['k'] != 'assign':
+                continue
+            rv = s['rv']
+            if rv['r'] == 'discr':
+                continue
+            if rv['r'] == 'use' and op_const(rv['o']) is not None and not s['lhs']['p'] and s['lhs']['l'] > fn.arg_count and fn.locals[s['lhs']['l']]['ty'] == 'bool' \
+                    and not fn.locals[s['lhs']['l']].get('name'):
+                continue
+            return False
+        k = blk['term']['k']
+        if k == 'return':
+            continue
+        if k not in ('drop', 'goto', 'switch'):
+            return False
+        stack.extend(fn.succs(b))
+    return True
+
+
 def _source_of(fn, prov, place):
     e = prov.place(place)
     for x in expr_walk(e):
@@ -384,15 +427,24 @@ def run_err_swallow(ctx, scope=None):
                    for s2 in sites):
                 continue
             keep.append(s1)
+        keep = [s1 for s1 in keep if not _is_drop_elaboration(fn, s1[2])]
         for bb, place, errs in keep:
             src = _source_of(fn, prov, place)
             base = '%s:on-Err-of:%s' % (fn.key if fn.kind != 'closure' else fn.npath, src)
             counts[base] = counts.get(base, 0) + 1
             key = base if counts[base] == 1 else '%s#%d' % (base, counts[base])
             nsite += 1
-            bad = walk_taint(F, fn, errs, {place['l']}, summ)
+            bad, sunk = walk_taint(F, fn, errs, {place['l']}, summ, want_sunk=True)
             if not bad:
                 ctx.ok(key, fn.loc(bb), 'error payload reaches Err return / error store / shared state on every path')
+                continue
+            if sunk and all(_path_has_cond(fn, prov, p, _is_store_occupied) for (_, _, p) in bad):
+                ctx.ok(key, fn.loc(bb), 'error payload is stored into an error slot; the only paths that do not store it run under '
+                       '"the slot already holds an error" (first error wins)')
+                continue
+            if all(k == 'dropped' and _only_err_returns_from(fn, b) for k, b, _ in bad):
+                ctx.ok(key, fn.loc(bb), 'error payload is propagated, or dropped only on paths that go on to return another Err '
+                       '(the caller still gets an error)')
                 continue
             kinds = sorted({k for k, _, _ in bad})
             where = fn.loc(bad[0][1])
@@ -473,3 +525,127 @@ def err_swallow_mt(ctx):
     n = run_err_swallow(ctx, scope)
     if n == 0:
         ctx.anchor_missing('branch on Result<_, crate error> in the MT pipelines')
+
+
+# --------------------------------------------------------------------------- ERR-SLOT
+
+@rule('ERR-SLOT', ['C05', 'C06', 'C10'], configs=('def',), floor=2)
+def err_slot(ctx):
+    """The stream range decoder cannot fail on its hot path: `read_u8` returns a zero byte for a failing source
+    and parks the first error in a slot (`RangeDecoder.read_error`). That is only sound if the owner of a stream
+    decoder empties the slot before anything decoded from those zero bytes gets out. For every type that holds a
+    `RangeDecoder<R>` over a byte stream (not the in-memory chunk buffer of LZMA2): in each of its methods, every
+    path from a call that hands out `&mut self.<rc>` (decode, normalize: they may read bytes) to a release of
+    decoded data (`LZDecoder::flush`) or to an Ok return passes through `take_read_error`, and a `Some` from
+    `take_read_error` leads to an Err return on every path. Clause 0: the slot exists - the stream `read_u8`
+    stores the Err payload through its out-parameter (otherwise ERR-SWALLOW reports it as swallowed)."""
+    from lzlint.core import switch_edges
+    F = ctx.facts
+    # clause 0: slot writer
+    writers = [f for f in F.fns if f.key.endswith('RangeReader>::read_u8') and 'RangeDecoderBuffer' not in f.key]
+    if not writers:
+        ctx.anchor_missing('stream implementation of RangeReader::read_u8')
+    for f in writers:
+        key = '%s:source-error-parked-in-slot' % f.key
+        st = [(bi, s) for bi in f.reachable for s in f.blocks[bi]['stmts'] if s['k'] == 'assign' and s['lhs']['p'] and
+              s['lhs']['p'][0] == '*' and 1 <= s['lhs']['l'] <= f.arg_count and 'Option<' in s['lhs'].get('ty', 'Option<')]
+        slot_params = [i for i in range(1, f.arg_count + 1) if 'Option<' in f.locals[i]['ty'] and 'Error' in f.locals[i]['ty']]
+        stores = [(bi, s) for bi, s in st if s['lhs']['l'] in slot_params]
+        if slot_params and stores:
+            ctx.ok(key, f.loc(stores[0][0]), 'stores into its `&mut Option<Error>` parameter')
+        else:
+            ctx.violation(key, f.loc(0), 'the stream read_u8 has no error slot parameter it stores into: a failing source becomes zero bytes '
+                          'and nobody can find out')
+    # owners of a stream range decoder
+    n = 0
+    for path, adt in F.adts.items():
+        for fl in (adt['variants'][0]['fields'] if adt.get('variants') else []):
+            ty = fl['ty']
+            if not ty.startswith('range_dec::RangeDecoder<') or 'RangeDecoderBuffer' in ty:
+                continue
+            fname = fl['name']
+            for f in F.fns:
+                if f.self_adt != path or f.kind == 'closure':
+                    continue
+                feeders, takers, releases = set(), set(), set()
+                for bi, t, c in f.calls():
+                    hands_rc = False
+                    for a in t['args']:
+                        l = op_local(a)
+                        if l is None:
+                            continue
+                        for (dbi, dsi, dk, node) in f.whole_defs(l):
+                            if dk != 'assign':
+                                continue
+                            rv = node['rv']
+                            # &mut (*self).rc  or a reborrow of it
+                            seen_l = set()
+                            while rv['r'] == 'ref' and rv['p']['p'] == ['*'] and rv['p']['l'] not in seen_l and rv['p']['l'] > f.arg_count:
+                                seen_l.add(rv['p']['l'])
+                                dd = [d for d in f.whole_defs(rv['p']['l']) if d[2] == 'assign']
+                                if len(dd) != 1:
+                                    break
+                                rv = dd[0][3]['rv']
+                            if rv['r'] == 'ref' and rv.get('mut') and rv['p']['l'] == 1 and len(rv['p']['p']) == 2 and \
+                                    isinstance(rv['p']['p'][1], dict) and rv['p']['p'][1].get('n') == fname:
+                                hands_rc = True
+                    if c.name == 'take_read_error':
+                        takers.add(bi)
+                    elif hands_rc:
+                        feeders.add(bi)
+                    if c.name == 'flush' and c.path.endswith('LZDecoder::flush'):
+                        releases.add(bi)
+                if not feeders:
+                    continue
+                n += 1
+                key = '%s:slot-emptied-before-data-is-released' % f.key
+                okret = {b for b in f.reachable for s in f.blocks[b]['stmts'] if s['k'] == 'assign' and s['lhs']['l'] == 0 and
+                         not s['lhs']['p'] and s['rv']['r'] == 'agg' and s['rv'].get('variant_name') == 'Ok'}
+                bad = None
+                for fb in sorted(feeders):
+                    tgt = f.blocks[fb]['term'].get('target')
+                    if tgt is None:
+                        continue
+                    free = f.reach_from([tgt], stop=takers)
+                    hit = sorted((free & releases) | (free & okret))
+                    if hit:
+                        bad = (fb, hit[0])
+                        break
+                if bad:
+                    ctx.violation(key, f.loc(bad[0]), 'after the range decoder was run (call at line %s) decoded data is released / Ok is returned (line %s) '
+                                  'without looking at the error slot: bytes decoded from the zeros that stand in for a failed or exhausted source '
+                                  'reach the caller as data' % (f.blocks[bad[0]]['term'].get('line'), f.loc(bad[1])))
+                    continue
+                # a Some from take_read_error becomes an Err return
+                bad2 = None
+                for tb in sorted(takers):
+                    t = f.blocks[tb]['term']
+                    dest = t['dest']['l']
+                    nb = t.get('target')
+                    sw = None
+                    cur = nb
+                    for _ in range(4):
+                        tt = f.blocks[cur]['term']
+                        if tt['k'] == 'switch':
+                            sw = cur
+                            break
+                        if tt['k'] != 'goto':
+                            break
+                        cur = tt['target']
+                    if sw is None:
+                        bad2 = (tb, 'its result is not tested')
+                        break
+                    arms = {a[0]: a[1] for a in f.blocks[sw]['term']['arms']}
+                    some = arms.get('1', None)
+                    if some is None:
+                        some = f.blocks[sw]['term']['otherwise']
+                    if not _only_err_returns_from(f, some):
+                        bad2 = (tb, 'a path from `Some(error)` reaches a return without building an Err')
+                        break
+                if bad2:
+                    ctx.violation(key, f.loc(bad2[0]), 'take_read_error: %s' % bad2[1])
+                else:
+                    ctx.ok(key, f.loc(sorted(feeders)[0]), '%d call(s) hand out &mut self.%s; each is followed by take_read_error (%d call(s)) before '
+                           'LZDecoder::flush / an Ok return, and Some(error) always becomes an Err return' % (len(feeders), fname, len(takers)))
+    if not n:
+        ctx.anchor_missing('a method of a type holding a stream RangeDecoder that runs the decoder')
